@@ -751,3 +751,59 @@ Proof.
   - rewrite flat_next_pinned_one_agent by exact Lx. reflexivity.
   - rewrite flat_next_pinned_one_env by exact W. reflexivity.
 Qed.
+
+(* ---- the two halves composed: episode ends of the environment cut the estimates ------------------- *)
+Lemma record_dones_firstn env_dones k : (k < length env_dones)%nat ->
+  firstn (S k) (fst (record_dones 0 env_dones)) = 0 :: firstn k env_dones.
+Proof.
+  intros Hk. pose proof (record_dones_spec_lemma env_dones 0) as H.
+  destruct (record_dones 0 env_dones) as [ds nd]. destruct H as [H1 H2]. cbn [fst].
+  assert (Hds : ds = firstn (length ds) (0 :: env_dones)).
+  { rewrite <- H1. rewrite firstn_app, Nat.sub_diag, firstn_all. cbn [firstn]. rewrite app_nil_r. reflexivity. }
+  rewrite Hds, firstn_firstn, H2. replace (Nat.min (S k) (length env_dones)) with (S k) by lia. reflexivity.
+Qed.
+
+Lemma episode_end_cuts_estimates_lemma g l rs vs env_dones nv rs' vs' env_dones' nv' k :
+  length rs = length vs -> length rs = length env_dones ->
+  length rs' = length vs' -> length rs' = length env_dones' ->
+  (k < length rs)%nat -> (k < length rs')%nat ->
+  firstn (S k) rs = firstn (S k) rs' -> firstn (S k) vs = firstn (S k) vs' ->
+  firstn k env_dones = firstn k env_dones' ->
+  nth k env_dones 0 == 1 -> nth k env_dones' 0 == 1 ->
+  let '(ds, nd) := record_dones 0 env_dones in
+  let '(ds', nd') := record_dones 0 env_dones' in
+  eqlQ (firstn (S k) (advs_of (gae_col g l rs vs ds nv nd)))
+       (firstn (S k) (advs_of (gae_col g l rs' vs' ds' nv' nd'))).
+Proof.
+  intros L1 L2 L1' L2' Hk Hk' Er Ev Ee B B'.
+  pose proof (record_dones_firstn env_dones k ltac:(lia)) as F.
+  pose proof (record_dones_firstn env_dones' k ltac:(lia)) as F'.
+  pose proof (done_convention_lemma env_dones k) as C.
+  pose proof (done_convention_lemma env_dones' k) as C'.
+  destruct (record_dones 0 env_dones) as [ds nd]. destruct (record_dones 0 env_dones') as [ds' nd'].
+  cbn [fst] in F, F'. destruct C as [C1 C2]. destruct C' as [C1' C2'].
+  apply gae_col_no_leak_idx; try lia; auto.
+  - rewrite F, F', Ee. reflexivity.
+  - rewrite C1. exact B.
+  - rewrite C1'. exact B'.
+Qed.
+
+(* the tensor the code calls `advantages`, entry [t][c], is the estimate A_t of column c *)
+Lemma gae_rows_is_def_lemma g l C rs vs ds nv nd c t :
+  wf C rs -> wf C vs -> wf C ds -> length nv = C -> length nd = C ->
+  length rs = length vs -> length rs = length ds -> (c < C)%nat -> (t < length rs)%nat ->
+  nth c (nth t (advs_of (gae_rows g l rs vs ds nv nd)) []) 0 ==
+  adv_def g l (fun i => nth c (nth i rs []) 0)
+              (ext (col 0 c vs) (nth c nv 0)) (ext (col 0 c ds) (nth c nd 0)) (length rs - t) t.
+Proof.
+  intros Wr Wv Wd Lnv Lnd L1 L2 Hc Ht.
+  destruct (gae_rows_col_advs g l C rs vs ds nv nd c Wr Wv Wd Lnv Lnd L1 L2 Hc) as (E1 & Wa & La).
+  rewrite <- (col_nth 0 c) by lia. rewrite E1.
+  rewrite gae_is_def_lemma by (rewrite !wf_col_length; lia).
+  rewrite wf_col_length.
+  apply adv_def_ext; intros i Hi; try reflexivity.
+  destruct (Nat.lt_ge_cases i (length rs)) as [Hlt|Hge].
+  - rewrite col_nth by exact Hlt. reflexivity.
+  - rewrite (nth_overflow (col 0 c rs)) by (rewrite wf_col_length; lia).
+    rewrite (nth_overflow rs) by lia. destruct c; reflexivity.
+Qed.
